@@ -237,27 +237,31 @@ Proof.
 Qed.
 
 (* ---- delete *)
+Lemma inv_close : forall s ch, Inv s -> Inv (close_chan s ch).
+Proof. intros s ch HI. destruct HI. constructor; cbn; auto. Qed.
+
 Lemma inv_delete : forall s c, Inv s -> Inv (delete_consumer s c).
 Proof.
   intros s c HI. unfold delete_consumer.
   destruct (negb (phase s c =? PH_STOPPED)); auto.
   apply inv_set_phase.
   2:{ right; right. unfold delete_consumer_client.
-      destruct (c2ch _ c); cbn; apply del_same. }
-  unfold delete_consumer_client. cbn [c2ch fwd rev ch2c phase to_remove clients conns chans next_client launch_log].
+      destruct (c2ch _ c); [destruct (has _ _ && negb _)|]; cbn; apply del_same. }
+  unfold delete_consumer_client.
+  cbn [c2ch fwd rev ch2c phase to_remove clients conns chans closed next_client launch_log].
   pose proof (bij_del (fwd s) (rev s) c (inv_client s HI)) as Hstep1.
   destruct (c2ch s c) as [ch|] eqn:Hc.
-  - constructor; cbn.
-    + exact Hstep1.
-    + pose proof (bij_del (c2ch s) (ch2c s) c (inv_chan s HI)) as H2. rewrite Hc in H2. exact H2.
-    + intros ch' c' H. apply del_some in H. destruct H as [Hne H].
-      destruct (inv_attr s HI _ _ H) as (k & y & Hk & Hy & Hf).
-      exists k, y. repeat split; auto. rewrite del_other; auto.
-      intros ->. apply (inv_chan s HI) in H. congruence.
-    + apply (inv_fresh s HI).
-    + intros c' x H. apply del_some in H. destruct H as [_ H]. eapply (inv_exists s HI); eauto.
-    + intros c' x H. apply del_some in H. destruct H as [_ H]. eapply (inv_log s HI); eauto.
-    + intros c' x H. apply del_some in H. destruct H as [_ H]. eapply (inv_phase s HI); eauto.
+  - destruct (has (chans s) ch && negb (closed s ch)); unfold close_chan; constructor; cbn.
+    1,8: exact Hstep1.
+    1,7: pose proof (bij_del (c2ch s) (ch2c s) c (inv_chan s HI)) as H2; rewrite Hc in H2; exact H2.
+    1,6: intros ch' c' H; apply del_some in H; destruct H as [Hne H];
+      destruct (inv_attr s HI _ _ H) as (k & y & Hk & Hy & Hf);
+      exists k, y; repeat split; auto; rewrite del_other; auto;
+      intros ->; apply (inv_chan s HI) in H; congruence.
+    1,5: apply (inv_fresh s HI).
+    1,4: intros c' x H; apply del_some in H; destruct H as [_ H]; eapply (inv_exists s HI); eauto.
+    1,3: intros c' x H; apply del_some in H; destruct H as [_ H]; eapply (inv_log s HI); eauto.
+    1,2: intros c' x H; apply del_some in H; destruct H as [_ H]; eapply (inv_phase s HI); eauto.
   - constructor; cbn.
     + exact Hstep1.
     + apply (inv_chan s HI).
@@ -294,11 +298,12 @@ Proof.
   - cbn. auto.
   - cbn. destruct (phase s c =? PH_LAUNCHED); cbn; auto. apply inv_stop; auto.
   - cbn. apply inv_purge; auto.
-  - cbn. destruct (attribute s ch); cbn; auto. apply inv_stop; auto.
+  - cbn. destruct (attribute s ch); cbn; auto. apply inv_close. apply inv_stop; auto.
   - cbn. destruct (attribute s ch); cbn; auto. apply inv_stop; auto.
   - cbn. destruct (attribute s ch); cbn; auto.
   - cbn. auto.
   - cbn. auto.
+  - cbn. destruct (has (chans s) ch); cbn; auto. apply inv_close; auto.
 Qed.
 
 Lemma inv_fold : forall ops s, Inv s -> Inv (fold_left (fun s o => fst (pstep s o)) ops s).
@@ -393,7 +398,7 @@ Proof.
   intros s c' c ch. unfold delete_consumer.
   destruct (negb (phase s c' =? PH_STOPPED)); auto.
   unfold delete_consumer_client. cbn. destruct (c2ch s c'); cbn; auto.
-  intros H. apply del_some in H. tauto.
+  destruct (has (chans s) z && negb (closed s z)); cbn; intros H; apply del_some in H; tauto.
 Qed.
 
 Lemma c2ch_fold_delete : forall l s c ch, c2ch (fold_left delete_consumer l s) c = Some ch -> c2ch s c = Some ch.
@@ -435,6 +440,7 @@ Proof.
   - destruct (attribute s ch0); cbn in H; auto.
   - destruct (attribute s ch0); cbn in H; auto.
   - destruct (attribute s ch0); cbn in H; auto.
+  - destruct (has (chans s) ch0); cbn in H; auto.
 Qed.
 
 (* ---------------------------------------------------------------- world stability *)
@@ -447,7 +453,8 @@ Proof.
                                         conns (fold_left delete_consumer l s0) = conns s0).
   { induction l as [|c l IH]; cbn; intros s0; auto. destruct (IH (delete_consumer s0 c)) as [H1 H2].
     rewrite H1, H2. unfold delete_consumer. destruct (negb _); auto.
-    unfold delete_consumer_client. cbn. destruct (c2ch s0 c); cbn; auto. }
+    unfold delete_consumer_client. cbn. destruct (c2ch s0 c); cbn; auto.
+    destruct (has (chans s0) z && negb (closed s0 z)); cbn; auto. }
   destruct o; cbn; auto.
   - destruct (has (conns s) conn) eqn:Hh; cbn; auto. split; auto.
     intros k y H. unfold upd. zeq; auto. subst. unfold has in Hh. rewrite H in Hh. discriminate.
@@ -467,6 +474,7 @@ Proof.
   - destruct (attribute s ch); cbn; auto.
   - destruct (attribute s ch); cbn; auto.
   - destruct (attribute s ch); cbn; auto.
+  - destruct (has (chans s) ch); cbn; auto.
 Qed.
 
 (* ---------------------------------------------------------------- launch log *)
@@ -475,6 +483,7 @@ Lemma log_delete : forall l s, launch_log (fold_left delete_consumer l s) = laun
 Proof.
   induction l as [|c l IH]; cbn; intros s; auto. rewrite IH. unfold delete_consumer.
   destruct (negb _); auto. unfold delete_consumer_client. cbn. destruct (c2ch s c); cbn; auto.
+  destruct (has (chans s) z && negb (closed s z)); cbn; auto.
 Qed.
 
 Lemma log_step : forall s o c x, In (c, x) (launch_log (fst (pstep s o))) ->
@@ -503,6 +512,7 @@ Proof.
   - destruct (attribute s ch); cbn in *; auto.
   - destruct (attribute s ch); cbn in *; auto.
   - destruct (attribute s ch); cbn in *; auto.
+  - destruct (has (chans s) ch); cbn in *; auto.
 Qed.
 
 (* ---------------------------------------------------------------- the pre-fix behaviour breaks the bijection *)
@@ -717,6 +727,136 @@ Proof.
   split; [exists [PAddClient 7; PAddConn 0 0; PLaunch 0 7 (Some 0)]; reflexivity|].
   split; [discriminate|]. split; [reflexivity|].
   repeat split; try reflexivity. discriminate.
+Qed.
+
+(* ---- deleted consumers are unbound, for ever *)
+
+Lemma deleted_unbound_inv : forall s c, Inv s -> phase s c = PH_DELETED ->
+  fwd s c = None /\ c2ch s c = None /\ (forall ch, ch2c s ch <> Some c) /\ (forall x, rev s x <> Some c).
+Proof.
+  intros s c HI Hp.
+  assert (Hf : fwd s c = None).
+  { destruct (fwd s c) as [x|] eqn:Hf; auto.
+    destruct (inv_phase s HI _ _ Hf) as [H | H]; rewrite H in Hp; discriminate. }
+  assert (Hch : forall ch, ch2c s ch <> Some c).
+  { intros ch H. destruct (inv_attr s HI _ _ H) as (k & y & _ & _ & Hfy). congruence. }
+  split; auto. split.
+  - destruct (c2ch s c) as [ch|] eqn:Hc; auto. apply (inv_chan s HI) in Hc. exfalso. eapply Hch; eauto.
+  - split; auto. intros x H. apply (inv_client s HI) in H. congruence.
+Qed.
+
+(* DeleteConsumerChain removes both channel entries whatever the state of the channel end (no invariant needed) *)
+Lemma delete_removes_both : forall s c ch, phase s c = PH_STOPPED -> c2ch s c = Some ch ->
+  c2ch (delete_consumer s c) c = None /\ ch2c (delete_consumer s c) ch = None /\
+  phase (delete_consumer s c) c = PH_DELETED /\
+  (chans s ch <> None -> closed (delete_consumer s c) ch = true).
+Proof.
+  intros s c ch Hp Hc. unfold delete_consumer. rewrite Hp. cbn [Z.eqb negb PH_STOPPED Pos.eqb].
+  unfold delete_consumer_client. cbn [c2ch fwd rev ch2c phase to_remove clients conns chans closed next_client launch_log].
+  rewrite Hc. unfold has. destruct (chans s ch) as [k|] eqn:Hk; cbn [andb].
+  - destruct (closed s ch) eqn:Hcl; cbn; rewrite ?del_same, ?Z.eqb_refl; repeat split; auto.
+  - cbn. rewrite ?del_same, ?Z.eqb_refl. repeat split; auto; try (intros H; congruence).
+Qed.
+
+Lemma phase_delete_keep : forall s c' c, phase s c = PH_DELETED -> phase (delete_consumer s c') c = PH_DELETED.
+Proof.
+  intros s c' c Hp. unfold delete_consumer.
+  destruct (phase s c' =? PH_STOPPED) eqn:E; cbn [negb]; auto.
+  apply Z.eqb_eq in E.
+  assert (Hne : c <> c') by (intros ->; rewrite E in Hp; discriminate).
+  apply Z.eqb_neq in Hne.
+  unfold delete_consumer_client. cbn. destruct (c2ch s c'); cbn.
+  - destruct (has (chans s) z && negb (closed s z)); cbn; rewrite Hne; auto.
+  - rewrite Hne. auto.
+Qed.
+
+Lemma phase_fold_delete_keep : forall l s c, phase s c = PH_DELETED -> phase (fold_left delete_consumer l s) c = PH_DELETED.
+Proof. induction l as [|c' l IH]; cbn; intros s c H; auto. apply IH. apply phase_delete_keep. auto. Qed.
+
+Lemma deleted_forever : forall s o c, Inv s -> phase s c = PH_DELETED -> phase (fst (pstep s o)) c = PH_DELETED.
+Proof.
+  intros s o c HI Hp. destruct (deleted_unbound_inv s c HI Hp) as (_ & _ & Hch & _).
+  destruct o; cbn; auto.
+  - destruct (has (conns s) conn); cbn; auto.
+  - destruct (has (chans s) ch); cbn; auto.
+  - unfold launch. destruct (Z.eq_dec c0 c) as [-> | Hne].
+    + rewrite Hp. cbn. auto.
+    + assert (Hb : (c =? c0) = false) by (apply Z.eqb_neq; auto).
+      destruct (negb _); cbn; auto. destruct conn as [k|]; cbn.
+      * destruct (launch_on_connection s c0 chain k) as [s1|] eqn:HL; cbn; rewrite Hb; auto.
+        unfold launch_on_connection in HL.
+        destruct (conns s k); [|discriminate]. destruct (clients s z); [|discriminate].
+        destruct (negb (z0 =? chain)); [discriminate|].
+        destruct (match rev s z with Some other => negb (other =? c0) | None => false end); [discriminate|].
+        inv_pair. cbn. auto.
+      * rewrite Hb. auto.
+  - unfold chan_open_confirm. destruct (chans s ch); cbn; auto. destruct (underlying s z); cbn; auto.
+    destruct (rev s z0); cbn; auto. destruct (c2ch s z1); cbn; auto.
+  - destruct (phase s c0 =? PH_LAUNCHED) eqn:E; cbn; auto. apply Z.eqb_eq in E.
+    destruct (c =? c0) eqn:E2; auto. apply Z.eqb_eq in E2. subst. rewrite E in Hp. discriminate.
+  - apply phase_fold_delete_keep. auto.
+  - destruct (attribute s ch) as [c0|] eqn:Ha; cbn; auto.
+    destruct (c =? c0) eqn:E2; auto. apply Z.eqb_eq in E2. subst. exfalso. eapply Hch; eauto.
+  - destruct (attribute s ch) as [c0|] eqn:Ha; cbn; auto.
+    destruct (c =? c0) eqn:E2; auto. apply Z.eqb_eq in E2. subst. exfalso. eapply Hch; eauto.
+  - destruct (attribute s ch); cbn; auto.
+  - destruct (has (chans s) ch); cbn; auto.
+Qed.
+
+Lemma closed_delete_keep : forall s c ch, closed s ch = true -> closed (delete_consumer s c) ch = true.
+Proof.
+  intros s c ch H. unfold delete_consumer. destruct (negb _); auto.
+  unfold delete_consumer_client. cbn. destruct (c2ch s c); cbn; auto.
+  destruct (has (chans s) z && negb (closed s z)); cbn; auto. destruct (ch =? z); auto.
+Qed.
+
+Lemma closed_fold_delete_keep : forall l s ch, closed s ch = true -> closed (fold_left delete_consumer l s) ch = true.
+Proof. induction l as [|c l IH]; cbn; intros s ch H; auto. apply IH. apply closed_delete_keep. auto. Qed.
+
+Lemma closed_step_keep : forall s o ch, closed s ch = true -> closed (fst (pstep s o)) ch = true.
+Proof.
+  intros s o ch H. destruct o; cbn; auto.
+  - destruct (has (conns s) conn); cbn; auto.
+  - destruct (has (chans s) ch0); cbn; auto.
+  - unfold launch. destruct (negb _); cbn; auto. destruct conn as [k|]; cbn; auto.
+    destruct (launch_on_connection s c chain k) as [s1|] eqn:HL; cbn; auto.
+    unfold launch_on_connection in HL.
+    destruct (conns s k); [|discriminate]. destruct (clients s z); [|discriminate].
+    destruct (negb (z0 =? chain)); [discriminate|].
+    destruct (match rev s z with Some other => negb (other =? c) | None => false end); [discriminate|].
+    inv_pair. cbn. auto.
+  - unfold chan_open_confirm. destruct (chans s ch0); cbn; auto. destruct (underlying s z); cbn; auto.
+    destruct (rev s z0); cbn; auto. destruct (c2ch s z1); cbn; auto.
+  - destruct (phase s c =? PH_LAUNCHED); cbn; auto.
+  - apply closed_fold_delete_keep. auto.
+  - destruct (attribute s ch0); cbn; auto. destruct (ch =? ch0); auto.
+  - destruct (attribute s ch0); cbn; auto.
+  - destruct (attribute s ch0); cbn; auto.
+  - destruct (has (chans s) ch0); cbn; auto. destruct (ch =? ch0); auto.
+Qed.
+
+Lemma thm_deleted_unbound : forall ops, let s := prun ops in
+  (* a deleted consumer has no entry in any index and no packet is attributed to it *)
+  (forall c, phase s c = PH_DELETED ->
+     fwd s c = None /\ c2ch s c = None /\ (forall ch, ch2c s ch <> Some c) /\ (forall x, rev s x <> Some c) /\
+     (forall ch, attribute s ch <> Some c)) /\
+  (* the deletion itself removes BOTH channel entries whatever the state of the channel end, and closes the end *)
+  (forall c ch, phase s c = PH_STOPPED -> c2ch s c = Some ch ->
+     c2ch (delete_consumer s c) c = None /\ ch2c (delete_consumer s c) ch = None /\
+     phase (delete_consumer s c) c = PH_DELETED /\ (chans s ch <> None -> closed (delete_consumer s c) ch = true)) /\
+  (* deleted is final: no operation (in particular no late packet callback) changes the phase again *)
+  (forall o c, phase s c = PH_DELETED -> phase (fst (pstep s o)) c = PH_DELETED) /\
+  (* a timeout closes the (ordered) channel; a closed channel end stays closed *)
+  (forall ch c, attribute s ch = Some c -> closed (fst (pstep s (PTimeout ch))) ch = true) /\
+  (forall o ch, closed s ch = true -> closed (fst (pstep s o)) ch = true).
+Proof.
+  intros ops s. pose proof (inv_reach ops) as HI. fold s in HI.
+  split.
+  { intros c Hp. destruct (deleted_unbound_inv s c HI Hp) as (H1 & H2 & H3 & H4). repeat split; auto. }
+  split; [intros c ch Hp Hc; apply delete_removes_both; auto|].
+  split; [intros o c Hp; apply deleted_forever; auto|].
+  split; [|apply closed_step_keep].
+  intros ch c Ha. cbn. rewrite Ha. cbn. rewrite Z.eqb_refl. reflexivity.
 Qed.
 
 (* ---- consumer *)
